@@ -149,6 +149,10 @@ pub fn agree(m: &Machine, model: &Result<V, Stop>, imp: &ImplOut) -> Result<bool
     }
 }
 
+thread_local! {
+    pub static TIMES: RefCell<(u64, u64)> = const { RefCell::new((0, 0)) };
+}
+
 pub struct SessionRun {
     pub verdict: Verdict,
     pub impl_outs: Vec<ImplOut>,
@@ -167,8 +171,16 @@ pub fn run_session_on(m: &mut Machine, im: &mut Impl, forms: &[Cell]) -> Session
     for (i, f) in forms.iter().enumerate() {
         let out_before_m = m.output.len();
         let out_before_i = im.log.borrow().len();
+        let t0 = std::time::Instant::now();
         let mr = m.eval_form(f);
+        let t1 = std::time::Instant::now();
         let ir = im.eval(f);
+        let t2 = std::time::Instant::now();
+        TIMES.with(|t| {
+            let mut t = t.borrow_mut();
+            t.0 += (t1 - t0).as_nanos() as u64;
+            t.1 += (t2 - t1).as_nanos() as u64;
+        });
         model_outs.push(show_model(m, &mr));
         impl_outs.push(ir.clone());
         match agree(m, &mr, &ir) {
